@@ -404,7 +404,7 @@ NoRef == [rel |-> "", exc |-> "", some |-> FALSE, steps |-> <<>>, log |-> <<>>, 
 
 NoGuardsL(lg) == SelectSeq(lg, LAMBDA e : e.k # "guard")
 GuardsL(lg) == Range(SelectSeq(lg, LAMBDA e : e.k = "guard"))
-NoCondL(lg) == SelectSeq(lg, LAMBDA e : e.k # "cond")
+NoCondL(lg) == SelectSeq(lg, LAMBDA e : e.k \notin {"cond", "ctime"})
 IsMeta(e) == e.k \in {"start", "consumed", "xmeta", "tmeta", "emeta", "sent", "user", "end"}
 MetasL(lg) == SelectSeq(lg, IsMeta)
 
@@ -504,7 +504,7 @@ C08_old(c, G, o) ==
 -----------------------------------------------------------------------------
 (* C09 *)
 C09_ignored(c, G, o) ==
-  o.ign => (LogK(o, {"cond"}) = <<>> /\ o.exc \notin ContractErrors)
+  o.ign => (LogK(o, {"cond", "ctime"}) = <<>> /\ o.exc \notin ContractErrors)
 
 (* contracts on, nothing fails  ==  ignore_contract=True, except for the conditions themselves *)
 C09_transparent(c, G, o) ==
@@ -586,6 +586,22 @@ C19_testing(c, G, o) ==
     /\ o.tp.ent = w.ent /\ o.tp.exi = w.exi /\ o.tp.con = w.con /\ o.tp.trs = w.trs
     /\ o.tp.fir = {p \in w.fir : p[2] \in {0, 7}}
 
+(* after(1) / idle(1) as seen by post-conditions and invariants ("ctime" entries): at least one time   *)
+(* unit since the state (the owner, or the source of the owning transition) was entered / was entered *)
+(* or last fired a transition -- taking into account what already happened earlier in this call       *)
+C13_contracts(c, G, o) ==
+  (IsExec(o) /\ Started(o.pre)) =>
+    \A j \in DOMAIN o.log :
+      o.log[j].k = "ctime" =>
+        LET e == o.log[j]
+            s == IF e.a > 0 THEN e.a ELSE c.trans[-e.a].src
+            entHere == \E i \in 1..(j - 1) : o.log[i].k = "ecode" /\ o.log[i].a = s
+            firedHere == \E i \in 1..(j - 1) : o.log[i].k = "tmeta" /\ o.log[i].a = s
+            et == IF entHere THEN o.clk ELSE G.entryT[s]
+            it == IF entHere \/ firedHere THEN o.clk ELSE G.idleT[s]
+        IN /\ e.b = (IF o.clk - 1 >= et THEN 1 ELSE 0)
+           /\ e.c = (IF o.clk - 1 >= it THEN 1 ELSE 0)
+
 -----------------------------------------------------------------------------
 (* The set of failing clauses, as <<property, clause>> pairs                *)
 Check(name, ok) == IF ok THEN {} ELSE {name}
@@ -640,7 +656,8 @@ Bad(c, G, o) ==
     Check(<<"C19", "testing">>, C19_testing(c, G, o)),
     Check(<<"C13", "frozen">>, C13_frozen(c, G, o)),
     Check(<<"C13", "onlyexec">>, C13_only_exec(c, G, o)),
-    Check(<<"C13", "guards">>, C13_guards(c, G, o))
+    Check(<<"C13", "guards">>, C13_guards(c, G, o)),
+    Check(<<"C13", "contracts">>, C13_contracts(c, G, o))
   }
 
 BadOf(p, c, G, o) == {b \in Bad(c, G, o) : b[1] = p}
